@@ -189,17 +189,29 @@ fn query_class(sql: &str) -> String {
     if v.is_empty() { if sql.contains("JOIN") { "inner-join".into() } else if sql.contains("sum(") || sql.contains("count(") || sql.contains("avg(") || sql.contains("min(") || sql.contains("max(") { "aggregate".into() } else { "map".into() } } else { v.join("+") }
 }
 
+/// a Map anywhere in the relation orders by a column its input does not have (the query ordered by something it did not select)
+fn orders_by_missing_column(rel: &Relation) -> bool {
+    match rel {
+        Relation::Map(m) => m.order_by().iter().any(|o| o.expr.columns().iter().any(|c| m.input().schema().field_from_identifier(*c).is_err())) || orders_by_missing_column(m.input()),
+        Relation::Reduce(r) => orders_by_missing_column(r.input()),
+        Relation::Join(j) => orders_by_missing_column(j.left()) || orders_by_missing_column(j.right()),
+        Relation::Set(s) => orders_by_missing_column(s.left()) || orders_by_missing_column(s.right()),
+        _ => false,
+    }
+}
+
 pub fn eval(case: &J) -> Outcome {
     let mut out = Outcome::new();
     let sql = case["sql"].as_str().unwrap();
-    let cls = query_class(sql);
+    let mut cls = query_class(sql);
     out.tag(&format!("class={cls}"));
     let rels = world2();
     let rel = match guarded(|| { let q = parse(sql).map_err(|e| e.to_string())?; Relation::try_from(QueryWithRelations::new(&q, &rels)).map_err(|e| e.to_string()) }) {
         Ok(Ok(r)) => r,
         Ok(Err(_)) => { out.tag("trivial"); out.tag("compile-err"); return out; }
-        Err((loc, msg)) => { out.tag("trivial"); out.fail(&format!("C18/sqlx/compile-panic/{}/{cls}", site_file(&loc)), format!("{sql}: {msg}")); return out; }
+        Err((loc, msg)) => { out.tag("trivial"); out.fail(&format!("C18/sqlx/compile-panic/{}/{cls}", site(&loc, &msg)), format!("{sql}: {msg}")); return out; }
     };
+    if orders_by_missing_column(&rel) { cls = "order-by-missing-column".to_string(); out.tag("order-by-missing-column"); }
     let mut rng = Rng::new(case["data_seed"].as_u64().unwrap());
     let data = gen_data2(&mut rng);
     let db = data.load();
@@ -275,7 +287,63 @@ pub fn eval_sizes(case: &J) -> Outcome {
     });
     match res {
         Ok(rel) => { out.imp = json!([rel.size().min().cloned(), rel.size().max().cloned()]); }
-        Err((loc, msg)) => { out.imp = json!("panic"); out.fail(&format!("C18/sizes/panic/{}", site_file(&loc)), msg); }
+        Err((loc, msg)) => { out.imp = json!("panic"); out.fail(&format!("C18/sizes/panic/{}", site(&loc, &msg)), msg); }
     }
     out
+}
+
+// ------------------------------------------------------------------------------------------------
+// stream `c08x`: constructs that stress the SQL -> Relation -> SQL path (C08); same verdict logic as `sqlx`
+
+pub fn gen_c08x(rng: &mut Rng, _k: usize, _tier: &str) -> J {
+    let strs = ["it''s", "x", "", "semi;colon", "back\\slash", "percent%", "new line", "é→ü", "\"dq\"", "--c", "/*c*/"];
+    let idents = ["my col", "we\"\"ird", "select", "ORDER", "Ünï", "a.b", "x y z", "c0"];
+    let s = *rng.pick(&strs); let id = *rng.pick(&idents);
+    let templates: Vec<(String, bool)> = vec![
+        (format!("SELECT t1.a AS x FROM t1, t2"), false),
+        (format!("SELECT a AS x, '{s}' AS s FROM t1"), false),
+        (format!("SELECT a AS x FROM t1 WHERE d = '{s}' OR d = 'x'"), false),
+        (format!("SELECT d || '{s}' AS s FROM t1"), false),
+        (format!("SELECT a AS \"{id}\" FROM t1"), false),
+        (format!("SELECT \"{id}\" AS y FROM (SELECT a AS \"{id}\" FROM t1) AS q"), false),
+        ("SELECT b AS k, count(*) AS n FROM t1 GROUP BY k".to_string(), false),
+        ("SELECT a AS x FROM t1 ORDER BY b, a".to_string(), false),
+        ("SELECT a AS x, b AS y FROM t1 ORDER BY 2, 1".to_string(), true),
+        ("SELECT * FROM t1".to_string(), false),
+        ("SELECT * FROM t1 JOIN t3 ON t1.e = t3.k".to_string(), false),
+        ("SELECT t1.* FROM t1 JOIN t2 ON t1.a = t2.a".to_string(), false),
+        ("SELECT a AS x FROM t1 WHERE a IN (SELECT a FROM t2)".to_string(), false),
+        ("SELECT DISTINCT d AS d FROM t1 ORDER BY d".to_string(), true),
+        (format!("SELECT a AS x, b AS y FROM t1 ORDER BY a LIMIT {} OFFSET {}", rng.range(0, 4), rng.range(0, 3)), true),
+        (format!("SELECT a AS a, b AS b FROM t1 ORDER BY a, b LIMIT {} OFFSET {}", rng.range(0, 4), rng.range(0, 3)), true),
+        (format!("SELECT a AS x, b AS y FROM t1 ORDER BY x DESC, y LIMIT {} OFFSET {}", rng.range(0, 4), rng.range(0, 3)), true),
+        (format!("SELECT a AS x FROM t1 UNION ALL SELECT a AS x FROM t2 ORDER BY x DESC LIMIT {}", rng.range(0, 5)), true),
+        (format!("SELECT a AS x FROM t1 INTERSECT SELECT a AS x FROM t2 ORDER BY x LIMIT {} OFFSET 1", rng.range(1, 3)), true),
+        ("SELECT * FROM t1 JOIN t2 USING (a)".to_string(), false),
+        ("SELECT a AS a, t1.b AS b1, t2.b AS b2 FROM t1 LEFT JOIN t2 USING (a)".to_string(), false),
+        ("SELECT a AS a FROM t1 NATURAL JOIN t2".to_string(), false),
+        ("SELECT t1.a AS a, t3.k AS k FROM t1 JOIN t2 ON t1.a = t2.a JOIN t3 ON t1.e = t3.k".to_string(), false),
+        ("SELECT sum(c) / count(c) AS r, max(b) - min(b) AS w FROM t1".to_string(), false),
+        ("SELECT b AS b, sum(c) + b AS r, count(*) * 2 AS n FROM t1 GROUP BY b".to_string(), false),
+        ("SELECT CASE WHEN a > 2 THEN 'hi' ELSE 'lo' END AS s, count(*) AS n FROM t1 GROUP BY CASE WHEN a > 2 THEN 'hi' ELSE 'lo' END".to_string(), false),
+        ("SELECT a AS x FROM t1 WHERE d LIKE 'x%'".to_string(), false),
+        ("SELECT a AS x FROM t1 WHERE b BETWEEN -1 AND 3".to_string(), false),
+        ("SELECT a AS x FROM t1 WHERE e IS NULL".to_string(), false),
+        ("SELECT a AS x FROM t1 WHERE e IS NOT NULL AND NOT (b > 2)".to_string(), false),
+        ("SELECT count(e) AS n, count(*) AS m, sum(e) AS s FROM t1".to_string(), false),
+        ("SELECT coalesce(e, -1) AS x, a AS y FROM t1".to_string(), false),
+        ("WITH t2 AS (SELECT a AS a FROM t1 WHERE b > 0) SELECT a AS x FROM t2".to_string(), false),
+        ("SELECT q.x AS x FROM (SELECT a AS x FROM t1) AS q JOIN (SELECT a AS x FROM t2) AS r ON q.x = r.x".to_string(), false),
+        ("SELECT a AS x, a AS y, a + a AS z FROM t1".to_string(), false),
+        ("SELECT max(c) AS m FROM t1 HAVING count(*) > 0".to_string(), false),
+        ("SELECT d AS d, count(*) AS n FROM t1 GROUP BY d HAVING sum(c) > 10 ORDER BY d".to_string(), true),
+        ("SELECT t1.a AS x, t2.a AS y FROM t1 CROSS JOIN t2".to_string(), false),
+        ("SELECT a AS x FROM t1 UNION SELECT a AS x FROM t2 ORDER BY x".to_string(), true),
+        ("SELECT -a AS x, +b AS y, a % 3 AS m, a / 2 AS h FROM t1".to_string(), false),
+        ("SELECT CAST(a AS FLOAT) / 3 AS q, CAST(c AS INTEGER) AS i, CAST(b AS TEXT) AS t FROM t1".to_string(), false),
+        ("SELECT a AS x FROM t1 AS u WHERE u.b > 0".to_string(), false),
+        ("SELECT count(DISTINCT d) AS n, count(DISTINCT b) AS m FROM t1".to_string(), false),
+    ];
+    let (sql, ordered) = templates[rng.below(templates.len() as u64) as usize].clone();
+    json!({"sql": sql, "ordered": ordered, "data_seed": rng.next() % 1000000})
 }
